@@ -293,7 +293,7 @@ func (c *Cluster) queryHosts(ctx context.Context, conn *ClientConn, version prim
 	if err != nil {
 		return nil, ClusterInfo{}, err
 	}
-	if rs.RowCount() == 0 {
+	if rs == nil || rs.RowCount() == 0 { // A result without rows (void) comes back as nil
 		return nil, ClusterInfo{}, errors.New("empty result set returned for system.local")
 	}
 	hosts = c.addHosts(hosts, rs)
@@ -331,6 +331,9 @@ func (c *Cluster) queryHosts(ctx context.Context, conn *ClientConn, version prim
 	})
 	if err != nil {
 		return nil, ClusterInfo{}, err
+	}
+	if rs == nil {
+		return nil, ClusterInfo{}, errors.New("result without rows returned for system.peers")
 	}
 	hosts = c.addHosts(hosts, rs)
 
